@@ -961,6 +961,13 @@ def arr_setitem(it, a, idx, value, node):
 def generic_element(it, iterable, node):
     """abstract element of an iterable that is not statically enumerable"""
     ln = getattr(node, "lineno", 0)
+    if getattr(iterable, "elem", None) is not None and isinstance(iterable, Unk):
+        return iterable.elem  # the per-element value of a comprehension result
+    if isinstance(iterable, Val) and (iterable.series or getattr(iterable, "of_frame", None) is not None) \
+            and getattr(iterable, "iter_kind", None) is None and iterable.pos_of is None:
+        e = Val(iterable.term)  # element of a column = the row's value (per-row view)
+        e.each_of = iterable
+        return e
     if isinstance(iterable, Val) or isinstance(iterable, Unk):
         e = Val(call("each", to_term(iterable)))
         e.each_of = iterable
